@@ -291,25 +291,22 @@ class _ThreadingReadWriteLock(ReadWriteLock):  # pragma: no cover
     def subsystem(self) -> str:
         return 'threading'
 
-    def _acquire_read(self) -> bool:
-        with self._read_lock:
-            self._counter += 1
-            return self._counter == 1
-
-    def _release_read(self) -> bool:
-        with self._read_lock:
-            self._counter -= 1
-            return self._counter == 0
-
     @asynccontextmanager
     async def read_lock(self) -> AsyncIterator[None]:
-        if self._acquire_read():
-            self._write_lock.acquire()
+        # The first reader takes the write mutex on behalf of all readers. It
+        # keeps the read mutex while waiting for it, so later readers queue up
+        # behind it instead of entering alongside an active writer.
+        with self._read_lock:
+            if self._counter == 0:
+                self._write_lock.acquire()
+            self._counter += 1
         try:
             yield
         finally:
-            if self._release_read():
-                self._write_lock.release()
+            with self._read_lock:
+                self._counter -= 1
+                if self._counter == 0:
+                    self._write_lock.release()
 
     @asynccontextmanager
     async def write_lock(self) -> AsyncIterator[None]:
